@@ -16,6 +16,9 @@ use crate::rng::Rng;
 use crate::term::EXT_VIOLATION;
 use crate::tree::TreeGen;
 
+/// `__query__ == [q1, .., qn]` of the query wrapper
+const WRAPPER_UNIFICATIONS: usize = 1;
+
 fn with_probes(gs: &[PG]) -> Vec<PG> {
     let mut v = vec![];
     for g in gs {
@@ -67,6 +70,15 @@ pub fn eval(p: &Prog) -> (String, Option<String>, bool, u64) {
                 ));
                 break;
             }
+            // `process_extension` runs after EVERY successful unification — also one that binds nothing (its extension is
+            // then empty): as many calls as `==` goals have succeeded on this path, plus the one of the query wrapper
+            if tree && !r.last && r.ext_calls != r.eq_goals + WRAPPER_UNIFICATIONS {
+                fail = Some(format!(
+                    "{} `==` goals have succeeded on this path (plus {} of the query wrapper) but process_extension was called {} times",
+                    r.eq_goals, WRAPPER_UNIFICATIONS, r.ext_calls
+                ));
+                break;
+            }
             if tree && !r.last && r.ext_total != r.smap_len {
                 fail = Some(format!(
                     "process_extension was given {} bindings in {} calls, the substitution holds {}",
@@ -102,6 +114,8 @@ fn corpus() -> Vec<&'static str> {
         "prog 2 2 0 cnd neq v0 i5 probe neq cons v0 cons v1 nil cons i5 cons i6 nil probe neq cons v0 cons v1 nil cons i5 cons i6 nil probe",
         "prog 2 2 0 cnd neq cons v0 cons v1 nil cons i1 cons i2 nil probe neq v0 i1 probe",
         "prog 2 2 0 cnd neq v0 v1 probe conde 2 2 eq v0 i1 probe 2 eq v0 v1 probe",
+        // unifications that bind nothing are unifications too: the hook runs, with an empty extension (seeded change C22-g)
+        "prog 2 2 0 cnd eq v0 i5 probe eq v0 i5 probe eq v1 v1 probe eq cons v0 cons i7 nil cons i5 cons i7 nil probe",
         "prog 2 2 0 cnd infd v0 I 0 3 probe infd v1 I 0 3 probe ltfd v0 v1 probe",
         "prog 3 3 0 cnd plusz v0 v1 v2 probe eq v0 i1 probe eq v1 i2 probe",
         "prog 3 3 0 cnd infd v0 I 1 3 infd v1 I 1 3 infd v2 I 1 3 distinctfd cons v0 cons v1 cons v2 nil probe eq v0 i1 probe",
